@@ -54,8 +54,18 @@ def main(argv):
     finally:
         sh(["git", "-C", REPO, "checkout", "--", "."])
         sh(["git", "-C", REPO, "clean", "-fdq"])
+    # results of earlier runs of this seed against OTHER checks are kept (a later run of the same check replaces its entry),
+    # unless the patch itself changed since
+    prev_path = os.path.join(d, "result.json")
+    if os.path.exists(prev_path) and os.path.getmtime(prev_path) >= os.path.getmtime(os.path.join(d, "patch.diff")):
+        try:
+            prev = json.load(open(prev_path))
+            for p, r in prev.get("checks", {}).items():
+                res["checks"].setdefault(p, dict(r, earlier_run=prev.get("at", "?")))
+        except Exception:
+            pass
     res["detected_by"] = [p for p, r in res["checks"].items() if r["exit"] != 0]
-    json.dump(res, open(os.path.join(d, "result.json"), "w"), indent=1)
+    json.dump(res, open(prev_path, "w"), indent=1)
     # restore the generated tables / build stamp for the unchanged tree
     sh([os.path.join(VERIF, "bin", "setup")], cwd=VERIF)
     print("detected_by:", res["detected_by"])
